@@ -1018,6 +1018,27 @@ class Interp:
                     return [(st, mk_obj("%s(%s, %s)" % (meth, show(xs[0]), show(xs[1])), ity))]
                 if meth in ASCII_CLASSES and len(xs) == 1:
                     return self.in_ranges(st, xs[0].lin, ASCII_CLASSES[meth])
+        # ranges: `(a..=b).contains(&x)`, `(a..b).contains(&x)` are `a <= x && x <= b` / `a <= x && x < b`
+        if std and name == "new" and re.search(r"ops::RangeInclusive::<.*>::new$|ops::range::RangeInclusive::<.*>::new$", res) and len(args) == 2:
+            return [(st, V("struct", adt="std::ops::RangeInclusive", fields={"start": args[0], "end": args[1]}))]
+        if std and name == "contains" and len(args) == 2 and re.search(r"ops::(range::)?Range(Inclusive)?::<", res):
+            rg = args[0]
+            n_ = 0
+            while rg is not None and rg.k == "ref" and n_ < 4:
+                n_ += 1
+                rg = self.read_target(st, rg.target, self.cur_body) if (self.cur_body is not None and rg.target[0] == "local") else rg.fields
+            if rg is not None and rg.k == "struct" and rg.fields is not None and "start" in rg.fields and "end" in rg.fields:
+                lo, hi, x = self.as_int(st, rg.fields["start"]), self.as_int(st, rg.fields["end"]), self.as_int(st, args[1])
+                if lo is not None and hi is not None and x is not None and None not in (lo.lin, hi.lin, x.lin):
+                    incl = "Inclusive" in res
+                    out = []
+                    for s2, ge in self.fork_cmp(st, "le", lo.lin, x.lin):
+                        if not ge:
+                            out.append((s2, mk_const(0, "bool")))
+                            continue
+                        for s3, le in self.fork_cmp(s2, "le" if incl else "lt", x.lin, hi.lin):
+                            out.append((s3, mk_const(1 if le else 0, "bool")))
+                    return out
         # cmp::Ordering helpers on concrete variants (documented value tables)
         if std and args and args[0].k == "variant" and args[0].vname in ("Less", "Equal", "Greater") \
                 and (owner.startswith("std::cmp::Ordering") or res.startswith("std::cmp::Ordering::") or res.startswith("core::cmp::Ordering::")):
